@@ -102,7 +102,7 @@ PROP_ENGINES = {
     'C01': ['resur', 'core', 'pin', 'nofin', 'fault', 'faultnofin', 'weak'],
     'C02': ['resur', 'core', 'pin', 'nofin', 'weak'],
     'C03': ['core', 'nofin', 'fault', 'weak', 'cyc'],
-    'C04': ['core', 'pin', 'fault', 'weak'],
+    'C04': ['core', 'pin', 'fault', 'weak', 'sat'],
     'C05': ['resur', 'core', 'nofin', 'fault', 'weak'],
     'C06': ['resur', 'core', 'weak'],
     'C07': ['fault', 'faultnofin', 'weaknofin', 'cleanfault', 'auto', 'cyc'],
